@@ -29,6 +29,7 @@ UBASE = dict(
 )
 USTRUCT = ["TypeOK"]
 MBASE = dict(MaxSize=1, NConns=3, Budget=5, AllowBreak=False, AllowInvalid=False)
+RBASE = dict(MaxSize=1, NConns=3, Budget=4, Modes=["right", "wrong"])
 SBASE = dict(K=1, NInteract=2, MaxPending=1, AllowPanic=True, AllowCancel=True)
 
 
@@ -327,4 +328,21 @@ def RD(slice_):
 PROPS["C19"] = {
     "kind": "cases", "xh": True, "invariants": ["Total"], "actprops": [], "preds": [],
     "configs": {"quick": [RD("builder"), RD("conv"), RD("serde")], "thorough": [RD("builder"), RD("conv"), RD("serde")]},
+}
+
+PROPS["C17"] = {
+    "kind": "redismgr", "xh": True,
+    "invariants": ["Inv_DeadStayDead", "Inv_Capacity"], "actprops": ["Act_C17", "Act_FreshPing"],
+    "preds": ["R17a", "R17b", "R17c"],
+    "obs_sample": {"quick": 1, "thorough": 1},
+    "configs": {
+        "quick": [
+            ("m1", C(MaxSize=1, NConns=4, Budget=5, Modes=["right", "stale", "wrong", "error", "disconnect"]), True),
+            ("m2", C(MaxSize=2, NConns=4, Budget=4, Modes=["right", "stale", "error"]), True),
+        ],
+        "thorough": [
+            ("m1", C(MaxSize=1, NConns=5, Budget=6, Modes=["right", "stale", "wrong", "error", "disconnect"]), True),
+            ("m2", C(MaxSize=2, NConns=5, Budget=5, Modes=["right", "stale", "wrong", "error", "disconnect"]), True),
+        ],
+    },
 }
